@@ -6,7 +6,7 @@ open Proto C23
 /-! Line protocol of the C23 model.
 input : `(forest steps)`
   forest = `(node ...)`, node = `(h)` | `(g)` | `(o)` | `(k coded (acc fs) ...)` | `(l type fsid forest)` | `(d kind forest)`
-  steps  = `((c i) | (p t i) | (r t i0 i1 ...) ...)`  t: 0 ompParallelDo/1 ompDo/2 accLoop; region 0 omp/1 accpar/2 acckernels
+  steps  = `((c i) | (p t i) | (r t i0 i1 ...) ...)`  t: 0 ompParallelDo/1 ompDo/2 accLoop/3 generic OMPLoopTrans/4 generic OMPParallelLoopTrans; region 0 omp/1 accpar/2 acckernels
 output: `((a1 a2 ...) gen safe1model forest)` with forest printed with the loop's fsDisc flag (0/1). -/
 
 partial def parseForest (xs : List Sexp) : Forest :=
@@ -44,6 +44,8 @@ def parseStep (s : Sexp) : Option Step :=
     | some 0, some i => some (.parLoop .ompParallelDo i)
     | some 1, some i => some (.parLoop .ompDo i)
     | some 2, some i => some (.parLoop .accLoop i)
+    | some 3, some i => some (.parLoop .genOmpDo i)
+    | some 4, some i => some (.parLoop .genOmpParallelDo i)
     | _, _ => none
   | .list (.atom "r" :: t :: tg) =>
     let targets := tg.filterMap Sexp.nat?
